@@ -282,7 +282,11 @@ func tagOf(s string) string {
 // the replies and shuts the server down. Fewer threads than one per client (clients are symmetric), so deeper
 // preemption bounds are affordable; what is explored is the interleaving of {inject, server read with the LIFO
 // pool, decode, buffer return, handler} — exactly where recycled buffers can leak between requests.
-func c12Feeder(name string, n int, hold bool) *e2x.Scenario {
+func c12Feeder(name string, n int, hold bool) *e2x.Scenario { return c12FeederR(name, n, hold, 0) }
+
+// c12FeederR: the first `rejects` datagrams are queries the default accept policy answers itself (QDCOUNT 2 →
+// FORMERR, opcode 3 → NOTIMP) without calling the handler: their receive buffers go back to the pool on another path.
+func c12FeederR(name string, n int, hold bool, rejects int) *e2x.Scenario {
 	return &e2x.Scenario{Name: name, New: func() (func(), func(*vsched.Exec) (string, map[string]string)) {
 		sent := make([]string, n)
 		replies := map[string]string{}
@@ -299,7 +303,7 @@ func c12Feeder(name string, n int, hold bool) *e2x.Scenario {
 				if hold {
 					// stay in the handler until the server has read every datagram (so that buffers handed back
 					// to the pool have been recycled while this request is still in use)
-					vsched.Point("handler.hold", func() bool { return pc.Reads >= n })
+					vsched.Point("handler.hold", func() bool { return pc.Reads >= n+rejects })
 				} else {
 					vsched.Point("handler.yield", nil)
 				}
@@ -318,6 +322,16 @@ func c12Feeder(name string, n int, hold bool) *e2x.Scenario {
 			})
 			vsched.GoNamed("serve", func() { srv.ActivateAndServe() })
 			vsched.GoNamed("feeder", func() {
+				for j := 0; j < rejects; j++ {
+					q := c12Request(100 + j)
+					b, _ := q.Pack()
+					if j%2 == 0 {
+						b[5] = 2 // QDCOUNT 2 with one question: FORMERR
+					} else {
+						b[2] = b[2]&^0x78 | 3<<3 // opcode 3: NOTIMP
+					}
+					pc.Inject(b, fmt.Sprintf("rej%d", j))
+				}
 				for i := 0; i < n; i++ {
 					q := c12Request(i)
 					sent[i] = q.String()
@@ -387,6 +401,8 @@ func c12Spaces(c *fw.Ctx) {
 		{c12Feeder("e2/recycle/pc/4-datagrams-held", 4, true), 1, 2},  // b=2: 1.1 M, 25 s
 		{c12Feeder("e2/recycle/pc/3-datagrams", 3, false), 2, 3},      // b=3: 0.6 M, 20 s
 		{c12Feeder("e2/recycle/pc/2-datagrams", 2, false), 3, 5},      // b=5: 5.1 M, 138 s
+		{c12FeederR("e2/recycle/pc/rejected+2-datagrams-held", 2, true, 1), 2, 3},
+		{c12FeederR("e2/recycle/pc/2-rejected+2-datagrams", 2, false, 2), 1, 2},
 		{c12Crosstalk("e2/crosstalk/pc/2-clients", "pc", 2, 0), 1, 2}, // b=2: 3.2 M, 45 s
 		{c12Crosstalk("e2/crosstalk/tcp/2-clients", "tcp", 2, 0), 0, 0},
 		{c12Crosstalk("e2/crosstalk/pc/3-clients", "pc", 3, 0), 0, 0},
